@@ -56,10 +56,16 @@ NoErrorReport(ev) == \A i \in 1..Len(ev.cb) : ev.cb[i].cat = "WARNING"
 AcceptedAsDocumented(ev) == ev.ok = 1 /\ NoErrorReport(ev)
 
 (* value returned by an accepted call *)
+SeqRange(q) == {q[i] : i \in 1..Len(q)}
 ValMatches(ev, r) ==
     CASE ev.e = "HasFz0" -> (ev.val = 1) = r.val
-      [] ev.e \in {"GetFreq", "GetCell", "GetZ0", "GetFZ0", "GetFmin",
-                   "GetFmax", "GetFreqVec", "GetMatrix", "GetToVec",
+      (* "lowest / highest frequency": first / last entry when the vector  *)
+      (* ascends; otherwise only required to be one of the frequencies     *)
+      [] ev.e \in {"GetFmin", "GetFmax"} ->
+            \/ ev.val = r.val
+            \/ ev.asc = 0 /\ ev.val \in SeqRange(r.s.fv)
+      [] ev.e \in {"GetFreq", "GetCell", "GetZ0", "GetFZ0",
+                   "GetFreqVec", "GetMatrix", "GetToVec",
                    "GetZ0Vec", "GetFZ0Vec"} -> ev.val = r.val
       [] OTHER -> TRUE
 
